@@ -19,6 +19,7 @@ def _hs():
                              "lossy" if lossy else "non-lossy", cap, L, list(v), list(wf) or "none",
                              gen_c15.MAXFAULTS - len(wf)),
                     sym="3 line bytes, producer of each line (2 producers), which flush calls fail"))
+    hs.append(H("c15::c15_offered_after_worker_gone", desc="lines offered after the worker and guard are gone (channel disconnected, empty): lossy counts each as dropped and returns Ok(len); non-lossy returns an error and counts nothing", sym="lossy flag, capacity in {1,2}, line byte"))
     hs.append(H("c15::c15_counter_monotone", desc="ErrorCounter counts exactly the writes that met a full queue (two clones, "
                 "write and write_all); accepted write leaves it unchanged", sym="line byte"))
     hs.append(H("c15::c15_reach", kind="reach", desc="vacuity twin"))
